@@ -165,4 +165,30 @@ theorem skip_optimisation_sound (d : Int) (N : Nat) (maxt : Int) (input : List S
 example : AllTimed [(⟨0, some (-5000), 1⟩ : Sample), ⟨1, some 3000, 2⟩] := by
   intro x hx; simp at hx; rcases hx with rfl | rfl <;> simp
 
+/-! ### the blocks hold only input samples, each block inside one aligned window -/
+
+/-- Soundness half of `backfill_exact`, for EVERY input, batch size, block duration and both alignment
+    variants (also when the run ends with an error: the blocks left on disk): every block written lies
+    inside one window `[d·k, d·k + d)` aligned to the chosen standard block duration `d`, is non-empty, and
+    every sample in it is an input sample (same series, timestamp and value bits) with `mint ≤ t < maxt`. -/
+theorem backfill_exact_partial (fixed : Bool) (maxBD : Int) (N : Nat) (input : List Sample) :
+    ∀ b ∈ (backfillG fixed maxBD N input).2, ∃ d k : Int, getCompatibleBlockDuration maxBD = .ok d ∧
+      d * k ≤ b.mint ∧ b.mint < b.maxt ∧ b.maxt ≤ d * k + d ∧ b.samples ≠ [] ∧
+      ∀ x ∈ b.samples, (⟨x.1, some x.2.1, x.2.2⟩ : Sample) ∈ input ∧ b.mint ≤ x.2.1 ∧ x.2.1 < b.maxt :=
+  backfill_sound_aux fixed maxBD N input
+
+/-- The full statement (repaired alignment): additionally, when every series' timestamps are strictly
+    increasing in file order inside each window, the run succeeds and every input sample is in some block.
+    NOT proved as one theorem: the window/loop half is (`windows_cover`: each timestamp has exactly one
+    visited window; `skip_optimisation_sound`: no window holding a sample is skipped), the remaining
+    head-commit half (a per-series increasing batch is stored entirely by `commit`) is checked by the
+    correspondence and the judge only. -/
+def backfill_exact_full : Prop :=
+  ∀ (maxBD : Int) (N : Nat) (input : List Sample), 0 < N → AllTimed input →
+    (∀ d, getCompatibleBlockDuration maxBD = .ok d →
+      ∀ (pre : List Sample) (x y : Sample) (post : List Sample) (tx ty : Int), input = pre ++ x :: post → y ∈ pre → y.s = x.s →
+        x.t = some tx → y.t = some ty → ty / d = tx / d → ty < tx) →
+    (backfillG true maxBD N input).1 = none ∧
+    ∀ x ∈ input, ∀ tx, x.t = some tx → ∃ b ∈ (backfillG true maxBD N input).2, (x.s, tx, x.v) ∈ b.samples
+
 end Prom.C50
